@@ -26,6 +26,10 @@ pub(crate) struct Http1Codec<IO> {
     transport_stream: IO,
     /// Receives messages from [`StreamSink.download_tx`]
     download_rx: mpsc::Receiver<Bytes>,
+    /// The message taken from [`Self::download_rx`] that is being written to the client. It is
+    /// kept here, not in the future that writes it, so that dropping that future half way
+    /// does not lose the rest of it
+    download_in_flight: Option<Bytes>,
     /// See [`StreamSink.download_tx`]
     download_tx: Option<mpsc::Sender<Bytes>>,
     /// Waits notify from [`StreamSink.download_eof`]
@@ -108,6 +112,7 @@ where
             }),
             transport_stream,
             download_rx,
+            download_in_flight: None,
             download_tx: Some(download_tx),
             download_eof: Arc::new(Notify::new()),
             upload_rx: Some(upload_rx),
@@ -188,6 +193,20 @@ where
     }
 }
 
+impl<IO> Http1Codec<IO>
+where
+    IO: AsyncWrite + Send + Unpin,
+{
+    /// Writes what is left of [`Self::download_in_flight`]
+    async fn write_download_in_flight(&mut self) -> io::Result<()> {
+        if let Some(bytes) = self.download_in_flight.as_mut() {
+            self.transport_stream.write_all_buf(bytes).await?;
+            self.download_in_flight = None;
+        }
+        Ok(())
+    }
+}
+
 #[async_trait]
 impl<IO> http_codec::HttpCodec for Http1Codec<IO>
 where
@@ -195,6 +214,9 @@ where
 {
     async fn listen(&mut self) -> io::Result<Option<Box<dyn http_codec::Stream>>> {
         loop {
+            // (a message whose writing was interrupted together with an earlier call)
+            self.write_download_in_flight().await?;
+
             let wait_read = async {
                 if let State::WaitingRequest(x) = &mut self.state {
                     if !x.buffer.is_empty() {
@@ -257,7 +279,10 @@ where
                         }
                         return Err(io::Error::from(ErrorKind::UnexpectedEof));
                     },
-                    Some(mut bytes) => self.transport_stream.write_all_buf(&mut bytes).await?,
+                    Some(bytes) => {
+                        self.download_in_flight = Some(bytes);
+                        self.write_download_in_flight().await?
+                    }
                 },
                 _ = self.download_eof.notified() => {
                     self.graceful_shutdown().await?;
@@ -269,8 +294,10 @@ where
 
     async fn graceful_shutdown(&mut self) -> io::Result<()> {
         self.upload_finished.store(true, Ordering::Release);
-        if let Ok(mut chunk) = self.download_rx.try_recv() {
-            self.transport_stream.write_all_buf(&mut chunk).await?;
+        self.write_download_in_flight().await?;
+        if let Ok(chunk) = self.download_rx.try_recv() {
+            self.download_in_flight = Some(chunk);
+            self.write_download_in_flight().await?;
         }
         self.transport_stream.flush().await?;
         // the pipe takes nothing from the upload channel while the peer does not read:
